@@ -16,9 +16,19 @@ package main
 //	reconnect-stale               the held maps differ from those of a brand-new client
 //	reconnect-not-removed         delta: a retained CDS / LDS resource that no longer exists was
 //	                              not listed in removed_resources (and is therefore still held)
+//
+// Overlap (cut.overlap): the network died without the server noticing - the clients abandon their
+// streams WITHOUT closing them, reconnect (same proxy ID, so two connections of one proxy are
+// registered at once), and only then the old streams terminate on the server (removeCon after the new
+// addCon). Further changes (cut.after) must still reach the reconnected streams:
+//
+//	overlap-connection-id-reused     the old and the new stream of one proxy share a connection ID
+//	                                 (only one of them is registered while both are open)
+//	overlap-connection-unregistered  the new stream is no longer registered once the old one terminated
 
 import (
 	"sort"
+	"strings"
 	"time"
 
 	"verifharness/internal/wire"
@@ -33,6 +43,8 @@ type CutSpec struct {
 	Second    bool     `json:"second_server,omitempty"`
 	Order     []string `json:"order"`
 	KeepNonce bool     `json:"keep_nonce,omitempty"`
+	Overlap   bool     `json:"overlap,omitempty"` // reconnect first, the old streams terminate afterwards (same server only)
+	After     []Op     `json:"after,omitempty"`   // changes made after the reconnect (and after the old streams are gone)
 	// zt flavour
 	StaleVersions bool `json:"stale_versions,omitempty"` // present wrong versions for some retained resources
 }
@@ -107,8 +119,34 @@ func genC05(r *wire.Rng) *History {
 	c.Second = r.Chance(1, 3)
 	c.Order = permute(r, envoyTypes)
 	c.KeepNonce = r.Chance(1, 2)
+	// the server has not noticed the dead streams when the proxies come back (only where the streams
+	// are still open at the cut, and on the same instance)
+	if (c.Mode == "quiet" || c.Mode == "after-change") && !c.Second && r.Chance(2, 3) {
+		c.Overlap = true
+	}
+	if c.Overlap || r.Chance(1, 4) {
+		n := 1 + r.Intn(2)
+		for i := 0; i < n; i++ {
+			o := genOp(r, w, &clock)
+			w.note(o)
+			c.After = append(c.After, o)
+		}
+	}
 	h.Cut = c
 	return h
+}
+
+// registeredIDs: the connection IDs the server has registered (adsClients) for this client's proxy.
+func registeredIDs(st *site, e *envoy) []string {
+	var out []string
+	want := strings.SplitN(e.nodeID, "~", 4)[2]
+	for _, c := range st.s.Discovery.AllClients() {
+		if p := c.Proxy(); p != nil && p.ID == want {
+			out = append(out, c.ID())
+		}
+	}
+	sort.Strings(out)
+	return out
 }
 
 // armCut makes the live stream die at its k-th response from now.
@@ -224,6 +262,7 @@ func runC05(h *History, stt *stats) result {
 		}
 	}
 	stt.Cuts["mode:"+c.Mode]++
+	zombies := map[string]*stream{}
 	for _, e := range both {
 		if e.isDead() {
 			stt.Cuts["scripted-response-cut"]++
@@ -238,8 +277,17 @@ func runC05(h *History, stt *stats) result {
 			stt.Cuts["between-CDS-and-EDS"]++
 		}
 		e.mu.Unlock()
-		e.disconnect()
+		if c.Overlap && !c.Second && !e.isDead() {
+			zombies[e.label] = e.abandon()
+		} else {
+			e.disconnect()
+		}
 	}
+	defer func() {
+		for _, e := range both {
+			e.closeStream(zombies[e.label])
+		}
+	}()
 	cutLog := clientInfo(sotw, delta)
 	retained := map[string]held{}
 	for _, e := range both {
@@ -319,6 +367,46 @@ func runC05(h *History, stt *stats) result {
 		return result{Clause: "reconnect-request-unanswered", Detail: merge(map[string]any{"unanswered": unanswered}, info())}
 	}
 
+	if len(zombies) > 0 {
+		stt.Reconnects["overlapping-old-stream"]++
+		// both streams of each proxy are open: both must be registered, under different IDs
+		for _, e := range both {
+			if zombies[e.label] == nil {
+				continue
+			}
+			if ids := registeredIDs(target, e); len(ids) != 2 {
+				return result{Clause: "overlap-connection-id-reused", Detail: merge(map[string]any{"client": e.label, "registered": ids,
+					"expected": "two connections of the proxy (old stream not yet terminated, new stream)"}, info())}
+			}
+		}
+		// now the server notices the dead streams: removeCon(old) runs after addCon(new)
+		for _, e := range both {
+			e.closeStream(zombies[e.label])
+		}
+		if !target.quiesceLoose(sotw, delta) {
+			return timeoutResult("after the old streams terminated", info())
+		}
+		for _, e := range both {
+			if zombies[e.label] == nil {
+				continue
+			}
+			if ids := registeredIDs(target, e); len(ids) != 1 {
+				return result{Clause: "overlap-connection-unregistered", Detail: merge(map[string]any{"client": e.label, "registered": ids,
+					"expected": "exactly the reconnected stream"}, info())}
+			}
+		}
+	}
+	// the reconnected streams keep following changes
+	if len(c.After) > 0 {
+		stt.Reconnects["changes-after-reconnect"]++
+		if r := applyStep(target, w, c.After, stt); r != nil {
+			return *r
+		}
+		if !target.quiesceLoose(sotw, delta) {
+			return timeoutResult("changes after the reconnect", info())
+		}
+	}
+
 	fs.connect(target, connectOpts{})
 	fd.connect(target, connectOpts{})
 	defer func() {
@@ -382,6 +470,6 @@ func runC05(h *History, stt *stats) result {
 	}
 	hd := delta.snapshot()
 	return result{OK: true, Summary: "c05 envoy cut=" + c.Mode + " k=" + itoa(c.K) + " prefix=" + itoa(len(h.Steps)) + " away=" + itoa(len(c.Away)) +
-		" second=" + wire.B(c.Second) + " first=" + c.Order[0] + " retained=" + itoa(countHeld(retained["delta"], envoyTypes)) + " gone=" + itoa(gone) +
+		" second=" + wire.B(c.Second) + " overlap=" + wire.B(len(zombies) > 0) + " after=" + itoa(len(c.After)) + " first=" + c.Order[0] + " retained=" + itoa(countHeld(retained["delta"], envoyTypes)) + " gone=" + itoa(gone) +
 		" held=" + itoa(len(hd["CDS"])) + "/" + itoa(len(hd["EDS"])) + "/" + itoa(len(hd["LDS"])) + "/" + itoa(len(hd["RDS"]))}
 }
